@@ -17,8 +17,7 @@ RULE = (
     "(where / SET value / SET key / index_elements / index_where / action), each compared with the cache-free model; "
     "family typed: SET on a column with a bind-processing datatype, keyed by string or Column object, value a Python "
     "literal / bindparam / excluded / NULL, on conflicting rows; family bindparam-flavour: bindparam(name) and "
-    "bindparam(name, None) in SET values under executemany + RETURNING (bindparam with a default value: oracle only, "
-    "known finding); "
+    "bindparam(name, None) in SET values under executemany + RETURNING and bindparam(name, default) supplied by the parameter sets; "
     "family render-sqlite / render-pg (ON CONSTRAINT included) and render-mysql (dict and ordered-list arguments, "
     "VALUES() and row-alias forms): the clause text tokenised and compared with the model's rendering; family "
     "batch-decision: all 64 flag combinations driven through the real _deliver_insertmanyvalues_batches; family plan-pg: "
@@ -121,7 +120,8 @@ def translate(repo, outdir):
         )
     vb = ast.unparse(fingerprint.find_node(tree, "SQLCompiler.visit_bindparam"))
     want_vb = (
-        "if is_upsert_set and bindparam.value is None and (bindparam.callable is None) and (self._insertmanyvalues is not None):\n"
+        "if is_upsert_set and self._insertmanyvalues is not None and (bindparam.value is None and bindparam.callable is None "
+        "or (self.column_keys is not None and bindparam.key in self.column_keys)):\n"
         "        self._insertmanyvalues = self._insertmanyvalues._replace(has_upsert_bound_parameters=True)"
     )
     if want_vb not in vb:
@@ -389,8 +389,7 @@ def _bp_case(rng, flavour):
     srt = int(rng.random() < 0.3)
     c = {"in": [0, 1, cols, sch[1], [[1, [1, [[1, 0]], []], sets, []]], 1, srt, rng.choice([2, 3, 1000]), existing, ps], "kind": "bindparam-flavour"}
     if flavour == 6:
-        c["model"] = False  # known defect C56-set-bindparam-default-batched: oracle only
-        c["kind"] = "bindparam-default"
+        c["kind"] = "bindparam-default"  # formerly C56-set-bindparam-default-batched (fixed by 5319231)
     return c
 
 
@@ -765,10 +764,10 @@ def match_finding(c, what):
             return any(cl[0] == 1 and cl[3] and any(a[0] in (4, 5, 6) and a[1] == k for e in cl[3][0][1:] for a in e[1:]) for cl in t[2])
         def sp(k):
             return any(cl[0] == 1 and any(a[0] in (4, 5, 6) and a[1] == k for _, e in cl[2] for a in e[1:]) for cl in t[2])
-        if t[1] == 1 and t[3] and (sp(0) or sp(1)):
+        if t[1] == 1 and t[3] and (sp(0) or sp(1) or wp(0) or wp(1)):
             return "C56-pg-embedded-counter-set-bindparam"
-        if t[3] and (wp(0) or wp(1)) and not (sp(0) or sp(1)) and (t[1] == 1 or not t[4]):
-            return "C56-where-bindparam-batched"
+        if t[3] and (wp(0) or wp(1)) and not (sp(0) or sp(1)) and not t[4]:
+            return "C56-where-bindparam-batched"  # fixed by e3b606f
     if t[0] == 0 and t[5] and not t[6] and len(t[9]) > 1 and t[7] > 1:
         if any(cl[0] == 1 and any(a[0] == 6 for _, e in cl[2] for a in e[1:]) for cl in t[4]):
             return "C56-set-bindparam-default-batched"
